@@ -7,10 +7,7 @@ package main
 // statement directly with regexp.
 
 import (
-	"encoding/json"
 	"fmt"
-	"os"
-	"path/filepath"
 	"regexp"
 	"strconv"
 	"strings"
@@ -209,24 +206,31 @@ func oracleLine(line string, obs Item, printed *Item, idx int, replay *Case, res
 
 // oracleText: "every line of a play file parses ... to exactly one of ..., and checking reports an
 // error precisely when some line is malformed": one item per physical line (LF or CRLF ended, or
-// the unterminated last one), equal to ParseLine of that line, in order; Check counts exactly the
-// malformed lines and each of its texts names its line.  A raw line of 64 KiB or more is the one
-// thing the loader refuses (recorded behaviour of bufio.Scanner in ParseByLine): the lines before
-// it are delivered and LoadFile returns an error.
+// the unterminated last one) WHATEVER ITS LENGTH, equal to ParseLine of that line, in order, and
+// no load error; Check counts exactly the malformed lines and each of its texts names its line.
+// (Until F14d a raw line of 64 KiB or more stopped bufio.Scanner and the file was refused; if
+// that ever returns it is reported under the key every-line-parses:line-of-64KiB-or-more.)
 func oracleText(c *Case, errs []string, note string, idx int, res *lib.Result) {
 	text := textOf(c.Text)
 	raw := physLines(text)
-	n, wantLong := len(raw), false
-	for i, l := range raw {
-		if len(l) >= 65536 {
-			n, wantLong = i, true
-			break
+	n, longest := len(raw), 0
+	for _, l := range raw {
+		if len(l) > longest {
+			longest = len(l)
 		}
 	}
 	res.Count("text")
+	if c.OracleOnly {
+		res.Count("text:several-MiB-judged-by-the-oracle-alone-in-this-tier")
+	}
 	res.CountN("text:physical-lines", len(raw))
-	if wantLong {
+	switch {
+	case longest >= 1<<20:
+		res.Count("text:with-a-line-of-1MiB-or-more")
+	case longest >= 65536:
 		res.Count("text:with-a-line-of-64KiB-or-more")
+	case longest >= 65534:
+		res.Count("text:with-a-line-just-below-64KiB")
 	}
 	if text != "" && !strings.HasSuffix(text, "\n") {
 		res.Count("text:unterminated-last-line")
@@ -243,18 +247,17 @@ func oracleText(c *Case, errs []string, note string, idx int, res *lib.Result) {
 	if note != "" {
 		viol("one-item-per-line", "load-paths-disagree", note)
 	}
-	if wantLong && c.TooLong && listedFinding(longLineKey) {
-		// the faithful model refutes "every line parses" for such a line (C20_every_line_one_item_refuted);
-		// reported under its stable key once known_findings.json lists it, a note in the evidence until then
-		viol("every-line-parses", "line-of-64KiB-or-more", fmt.Sprintf("physical line %d has %d bytes: LoadFile returned an error after %d items, the file is refused", n+1, len(raw[n]), len(c.ObsL)))
-	}
-	if c.TooLong != wantLong {
-		viol("one-item-per-line", "load-error", fmt.Sprintf("LoadFile error is %v; a raw line of 64 KiB or more present: %v", c.TooLong, wantLong))
+	if c.TooLong {
+		if longest >= 65536 {
+			viol("every-line-parses", "line-of-64KiB-or-more", fmt.Sprintf("a physical line has %d bytes: LoadFile returned an error after %d of %d items, the file is refused", longest, len(c.ObsL), n))
+		} else {
+			viol("one-item-per-line", "load-error", fmt.Sprintf("LoadFile returned an error after %d of %d items", len(c.ObsL), n))
+		}
 		return
 	}
 	if len(c.ObsL) != n {
 		fam, extra := "item-count", ""
-		if len(c.ObsL) == n-1 && !wantLong && !strings.HasSuffix(text, "\n") {
+		if len(c.ObsL) == n-1 && !strings.HasSuffix(text, "\n") {
 			fam, extra = "unterminated-last-line-dropped", fmt.Sprintf(" (the file ends without a newline; its last line is %q)", clip(dropCR(raw[n-1])))
 		}
 		viol("one-item-per-line", fam, fmt.Sprintf("%d physical lines to parse, %d items delivered%s", n, len(c.ObsL), extra))
@@ -453,25 +456,3 @@ func oracleCancelled(c *Case, direct []string, idx int, res *lib.Result) {
 	}
 }
 
-const longLineKey = "every-line-parses:line-of-64KiB-or-more"
-
-var listed map[string]bool
-
-// listedFinding: is key a known finding of C20 in $VERIF_ROOT/known_findings.json?
-func listedFinding(key string) bool {
-	if listed == nil {
-		listed = map[string]bool{}
-		b, err := os.ReadFile(filepath.Join(os.Getenv("VERIF_ROOT"), "known_findings.json"))
-		var kf struct {
-			Findings []struct{ Property, Key, Status string }
-		}
-		if err == nil && json.Unmarshal(b, &kf) == nil {
-			for _, f := range kf.Findings {
-				if f.Property == "C20" && f.Status == "known" {
-					listed[f.Key] = true
-				}
-			}
-		}
-	}
-	return listed[key]
-}
